@@ -155,6 +155,45 @@ def canon(fn_node: ast.AST) -> ast.AST:
     return t
 
 
+def wsgi_range_reader(hn: ast.AST, scope: Optional[ast.AST] = None) -> Optional[str]:
+    """The WSGI way of sending the bytes [start, end) of the open file: seek(start), then a loop that reads
+    min(chunk, <what is left>) per step over exactly end - start bytes. Decided structurally on the role-named copy of the
+    handler (locals that are assigned once are read through): the loop is `for v in range(A, B, C)` yielding
+    `read(min(C, B - v))` with (A, B) = (start, end) or (0, end - start). None = recognised; otherwise what is wrong."""
+    root = scope if scope is not None else hn
+    shim = _FnShim(hn)
+
+    def res(e: ast.expr) -> str:
+        ds = defs_of(shim, e) if isinstance(e, ast.Name) else [e]
+        return ast.unparse(ds[0] if len(ds) == 1 else e)
+
+    seeks = [c for c in ast.walk(root) if isinstance(c, ast.Call) and isinstance(c.func, ast.Attribute) and c.func.attr == "seek" and len(c.args) == 1]
+    if not any(res(c.args[0]) == "start" for c in seeks):
+        return "no seek(start) before the range is read"
+    loops = [n for n in ast.walk(root) if isinstance(n, ast.For) and isinstance(n.iter, ast.Call) and isinstance(n.iter.func, ast.Name) and n.iter.func.id == "range" and len(n.iter.args) == 3
+             and any(isinstance(c, ast.Call) and isinstance(c.func, ast.Attribute) and c.func.attr == "read" for c in ast.walk(n))]
+    if len(loops) != 1 or not isinstance(loops[0].target, ast.Name):
+        return f"{len(loops)} chunk loops of the form `for v in range(a, b, step)` around read()"
+    lp = loops[0]
+    a, b, c = (res(x) for x in lp.iter.args)
+    v = lp.target.id
+    if (a, b) not in (("start", "end"), ("0", "end - start")):
+        return f"the chunk loop runs over range({a}, {b}, ...), not over the end - start bytes of the range"
+    reads = [x for x in ast.walk(lp) if isinstance(x, ast.Call) and isinstance(x.func, ast.Attribute) and x.func.attr == "read"]
+    ys = [x for x in ast.walk(lp) if isinstance(x, ast.Yield) and x.value is not None and any(r is y for r in reads for y in ast.walk(x.value))]
+    if len(reads) != 1 or len(ys) != 1 or len(reads[0].args) != 1:
+        return "the chunk loop does not yield exactly one read() per step"
+    ra = reads[0].args[0]
+    if not (isinstance(ra, ast.Call) and isinstance(ra.func, ast.Name) and ra.func.id == "min" and len(ra.args) == 2):
+        return f"read({ast.unparse(ra)[:40]}) is not clamped with min(chunk, what is left)"
+    m1, m2 = res(ra.args[0]), res(ra.args[1])
+    left = f"{b} - {v}" if " " not in b else f"({b}) - {v}"
+    ok_left = {f"{b} - {v}", left, f"{ast.unparse(lp.iter.args[1])} - {v}"}
+    if not ((m1 == c and m2 in ok_left) or (m2 == c and m1 in ok_left)):
+        return f"read(min({m1}, {m2})) does not read min(step, bytes left of the range)"
+    return None
+
+
 class _FnShim:
     """what common.defs_of needs of a function, for a canon()-ised copy of its tree"""
 
@@ -366,13 +405,11 @@ def run(p: Program, rep: Report, tier: str) -> None:
             else:
                 per = per + lin_of_fstring(e)
         if side == "wsgi":
-            inner = [n for n in ast.walk(loop) if isinstance(n, ast.For) and n is not loop]
-            okr = inner and ast.unparse(inner[0].iter).startswith("range(start, end, ") and any(isinstance(n, ast.Call) and ast.unparse(n).endswith("end - here))") for n in ast.walk(inner[0]))
-            seek = any(isinstance(n, ast.Call) and ast.unparse(n) == "file.seek(start)" for n in ast.walk(loop))
-            if okr and seek:
-                rep.ok("R2.1", "wsgi: range data = seek(start) then read(min(chunk, end - here)) for here in range(start, end, chunk)")
+            why_ = wsgi_range_reader(hn, loop)
+            if why_ is None:
+                rep.ok("R2.1", "wsgi: range data = seek(start) then read(min(chunk, bytes left)) over exactly end - start bytes")
             else:
-                rep.violation("R2.1", construct(h, text="range reader"), where(h, loop), "wsgi: the multi-range reader does not seek to start and read up to end")
+                rep.violation("R2.1", construct(h, text="range reader"), where(h, loop), f"wsgi: the multi-range reader does not seek to start and read up to end ({why_})")
         if hdr_calls != 1 or data_parts != 1:
             rep.violation("R2.1", construct(h, text=f"{hdr_calls} headers / {data_parts} data parts per range"), where(h, loop), f"{side}: a range is not sent as exactly one part header and one data block")
         if per == per_range_formula:
@@ -490,7 +527,7 @@ def run(p: Program, rep: Report, tier: str) -> None:
         h = cls.methods["handle_single_range"]
         src = ast.unparse(canon(h.node))
         if side == "wsgi":
-            ok = "file.seek(start)" in src and "range(start, end, self.chunk_size)" in src and "min(self.chunk_size, end - here)" in src
+            ok = wsgi_range_reader(canon(h.node)) is None
         else:
             ok = "sendfile(file_descriptor, start, end - start)" in src
         if ok:
@@ -663,15 +700,29 @@ def run(p: Program, rep: Report, tier: str) -> None:
     from ..common import norm_guards as _gof, parents as _parents
     cs = p.cls("baize.asgi.responses:FileResponse").methods.get("create_send_or_zerocopy")
     fs = None
-    if cs is not None:
-        for nf in cs.nested.values():
-            if len(nf.params) >= 3 and any(isinstance(c, ast.Attribute) and ast.unparse(c) == "os.read" for c in ast.walk(nf.node)):
-                fs = nf
+    # the emulation of sendfile: the function of the ASGI response module that reads the descriptor with os.read and takes a
+    # byte count - a closure of create_send_or_zerocopy on the pinned tree, possibly a method / module function / __call__ of
+    # a private class after a refactoring
+    cands = [nf for nf in p.module("baize.asgi.responses").all_funcs
+             if len(nf.params) >= 3 and any(isinstance(c, ast.Attribute) and ast.unparse(c) == "os.read" for c in walk_shallow(nf.node))]
+
+    def _count_param(nf: FuncInfo) -> Optional[str]:
+        tested = {n.left.id for n in ast.walk(nf.node) if isinstance(n, ast.Compare) and isinstance(n.left, ast.Name) and n.left.id in nf.params
+                  and len(n.ops) == 1 and isinstance(n.ops[0], (ast.Is, ast.IsNot)) and isinstance(n.comparators[0], ast.Constant) and n.comparators[0].value is None}
+        arith = {x.id for n in ast.walk(nf.node) if isinstance(n, (ast.BinOp, ast.Compare)) and not (isinstance(n, ast.Compare) and isinstance(n.ops[0], (ast.Is, ast.IsNot)))
+                 for x in ast.walk(n) if isinstance(x, ast.Name) and x.id in nf.params}
+        both = [q for q in nf.params if q in tested and q in arith]
+        # the offset is only handed to lseek; the count takes part in arithmetic / comparisons
+        both = [q for q in both if not any(isinstance(c, ast.Call) and any(isinstance(a, ast.Name) and a.id == q for a in c.args) and "lseek" in ast.unparse(c) for c in ast.walk(nf.node)) or q.lower().startswith("count")]
+        return both[0] if len(both) == 1 else next((q for q in nf.params if q.lower() in ("count", "length", "nbytes", "size")), None)
+    cands = [nf for nf in cands if _count_param(nf) is not None]
+    if len(cands) == 1:
+        fs = cands[0]
     if fs is None:
-        rep.undecide("R2.6", "asgi: the fallback sender (nested function of create_send_or_zerocopy calling os.read) was not found")
+        rep.undecide("R2.6", f"asgi: the fallback sender (the function that reads the descriptor with os.read for a given byte count) was not found ({len(cands)} candidates)")
     else:
         rep.analysed(fs.fq)
-        cnt = fs.params[2]
+        cnt = _count_param(fs)
         derived = {cnt}
         changed = True
         while changed:
